@@ -142,6 +142,10 @@ func (g *GroupWorld) makeNode(i *Inst, created time.Time) *v1.Node {
 	if s.Chance(0.3) {
 		n.Annotations = map[string]string{"node.alpha.kubernetes.io/ttl": "0"}
 	}
+	if s.Chance(g.w.prof.PZeroCreation) {
+		n.CreationTimestamp = metav1.Time{}
+		g.w.stats.Shapes["node-zero-creation"]++
+	}
 	if g.w.cfg.OddObjects {
 		switch s.Pick(12, 1, 1, 1, 1, 1, 1) {
 		case 1:
@@ -657,7 +661,7 @@ var extTaintValues = []string{"", "0", "-5", "abc", "99999999999999999999", "922
 func (g *GroupWorld) operatorAction(s *Stream, prefer string) {
 	w := g.w
 	p := w.prof
-	act := s.Pick(int(p.PCordon*100), int(p.PCordon*60), int(p.PAnnotate*100), int(p.PAnnotate*50), int(p.PForceTaint*60), int(p.PExtTaint*80), 15, 10, 8, 8, 8, 6, 5)
+	act := s.Pick(int(p.PCordon*100), int(p.PCordon*60), int(p.PAnnotate*100), int(p.PAnnotate*50), int(p.PForceTaint*60), int(p.PExtTaint*80), 15, 10, 8, int(p.PAsgEdit*100), 8, 6, 5)
 	names := []string{"cordon", "uncordon", "annotate", "unannotate", "force-taint", "ext-taint", "foreign-taint", "remove-taint", "spot-loss", "asg-edit", "node-delete", "relabel", "ext-untaint"}
 	gate := map[string]string{"cordon": "cordon", "uncordon": "cordon", "annotate": "annotate", "unannotate": "annotate", "force-taint": "force-taint", "ext-taint": "ext-taint",
 		"foreign-taint": "foreign-taint", "remove-taint": "foreign-taint", "spot-loss": "spot", "asg-edit": "asg-edit", "node-delete": "node-delete", "relabel": "relabel", "ext-untaint": "ext-taint"}
